@@ -192,7 +192,7 @@ PROPS = {
         "extra_theorems": ["Gofasta.Lemmas.Sched.reach_inv", "Gofasta.Lemmas.Sched.success_means_complete", "Gofasta.Lemmas.Sched.reorder_writer_in_order", "Gofasta.Lemmas.Sched.commutative_writer", "Gofasta.Lemmas.Sched.counting_writer", "Gofasta.Lemmas.Sched.no_deadlock", "Gofasta.Lemmas.Sched.maximal_run_returned", "Gofasta.Lemmas.Sched.terminates", "Gofasta.Lemmas.Sched.run_length_le", "Gofasta.Lemmas.Sched.runSchedule_returns", "Gofasta.Lemmas.Sched.error_reported", "Gofasta.Lemmas.Sched.maximal_run_error", "Gofasta.Lemmas.Sched.error_has_source", "Gofasta.Lemmas.Sched.no_spurious_error", "Gofasta.Lemmas.Sched.maximal_run_success", "Gofasta.Lemmas.Sched.no_panic", "Gofasta.Lemmas.Sched.no_send_on_closed", "Gofasta.Lemmas.Sched.close_once", "Gofasta.Lemmas.Sched.buffers_bounded",
                            "Gofasta.Props.Pipes.drivers_conform", "Gofasta.Props.Pipes.inner_error_arms", "Gofasta.Lemmas.AggVariants.variants_aggregate_model_deterministic", "Gofasta.Lemmas.AggVariants.variants_aggregate_any_order",
                            "Gofasta.Lemmas.AggVariants.aggLt_not_swo", "Gofasta.Lemmas.AggVariants.tie_hypothesis_needed"],
-        "streams": {"C12": (64, 400)},
+        "streams": {"C12": (64, 400), "C12sched": (400, 4000)},
         "thorough_seeds": 3,
         "cli": True,
         "race": (24, 150),
@@ -200,7 +200,11 @@ PROPS = {
                 "directory and -o stdout through the binary, sam variants per-sequence / --aggregate, closest, closest -n --table, updown list, topranking size / push / csv) "
                 "on inputs of 20-80 records; each case = 5 (quick) or 12 (thorough) runs of the real code with --threads in 1..16, GOMAXPROCS in 1..16 and a fresh seed of the "
                 "verif Jitter hook (sleep/yield before every worker's send); all runs must be byte-identical and none may fail; the same stream is repeated under a "
-                "-race build; non-trivial = every case (each compares several schedules); tag jitter-inverted-an-order = the hook observed an order inversion",
+                "-race build; non-trivial = every case (each compares several schedules); tag jitter-inverted-an-order = the hook observed an order inversion; "
+                "stream C12sched: snps / updown list / variants in-process on 1-300 records with a failure planted in the reader (bad symbol in record k), the workers "
+                "(variants: rows wider than the annotated genome) or the writer (the write of record k fails, once or from then on) or none; the outcome (nil and every "
+                "record once in input order, or an error) must equal that of the small-step model Model/Sched run under three pseudo-random schedules with the channel "
+                "capacities of the regenerated driver shape",
     },
     "C18": {
         "extra_imports": ["Gofasta.Lemmas.Refusals", "Gofasta.Props.Cli", "Gofasta.Props.Pipes", "Gofasta.Lemmas.SchedProofs"],
